@@ -25,7 +25,7 @@ import (
 
 func init() {
 	register(&Prop{ID: "C17", Run: runC17, Race: true, Workers: 8, MinNontrivial: 300,
-		Rule:        "race-detector build; (a) first-use rounds: a fresh SP per round is hit at a barrier by 8-16 goroutines whose first operation needs the lazily built signing context (document builders, POST body, both redirect builders, Sign*, SigningContext), with the signingctx.* hooks yielding or sleeping 0-200us to widen the window; rounds in which >= 2 goroutines were inside the slow path are counted; (b) one long-lived SP per key configuration under 16 goroutines x a seeded mix of every public operation (build, sign, redirect, POST, metadata, validation of genuine and hostile SSO responses and logout messages, the unverified decoders); (c) sequential purity: configuration snapshot before/after, repeated calls, mutation of every returned result; oracle: zero race-detector reports; every concurrent result equals the result of the same operation computed on a private identical SP beforehand (random IDs and ECDSA signatures compared by validity, not bytes); configuration snapshot unchanged; repeated call same outcome; later results unaffected by mutation; non-trivial = operations checked; distinct by (phase, operation, input index); one caller-assembled document shared by all goroutines through the redirect and POST helpers; encryption keys without precomputed CRT values; returned values scribbled over in place; four goroutines validating on a provider without a clock, configuration compared afterwards",
+		Rule:        "race-detector build; (a) first-use rounds: a fresh SP per round is hit at a barrier by 8-16 goroutines whose first operation needs the lazily built signing context (document builders, POST body, both redirect builders, Sign*, SigningContext), with the signingctx.* hooks yielding or sleeping 0-200us to widen the window; rounds in which >= 2 goroutines were inside the slow path are counted; (b) one long-lived SP per key configuration under 16 goroutines x a seeded mix of every public operation (build, sign, redirect, POST, metadata, validation of genuine and hostile SSO responses and logout messages, the unverified decoders); (c) sequential purity: configuration snapshot before/after, repeated calls, mutation of every returned result; oracle: zero race-detector reports; every concurrent result equals the result of the same operation computed on a private identical SP beforehand (random IDs and ECDSA signatures compared by validity, not bytes); configuration snapshot unchanged; repeated call same outcome; later results unaffected by mutation; non-trivial = operations checked; distinct by (phase, operation, input index); one caller-assembled document shared by all goroutines through the redirect and POST helpers; encryption keys without precomputed CRT values; returned values scribbled over in place; four goroutines validating on a provider without a clock, configuration compared afterwards; fixtures with blank entries in the requested authentication contexts",
 		Assumptions: []string{"the race detector only sees executed interleavings", "SigningContext()'s return value is the SP's shared configuration object and is never mutated by the monitor"}})
 }
 
